@@ -252,6 +252,16 @@ def check_case(case):
                         (rf.get("msg_is_error_text") and rf["msg"].lower() in m.lower() and e.get("rewards") is None) or
                         (rf.get("msg_any_not_solved") and e.get("rewards") is None) or
                         (rf.get("ok") and not rf.get("msg_any_not_solved") and e.get("rewards") is not None))
+                    if okm and rf.get("msg_any_not_solved") and key.endswith("_no_prune"):
+                        # "marked not solved" is something other than a second copy of the failure report: an
+                        # unpruned entry that repeats the pruned entry's message word for word is a failed solve
+                        pm = res.get(key[:-len("_no_prune")], {}).get("msg")
+                        if isinstance(pm, str) and pm == m:
+                            v.fail("unpruned-entry-repeats-the-failure", f"{label}: entry {key} carries the same "
+                                                                         f"message as the failed pruned entry "
+                                                                         f"({m!r}) instead of being marked not solved",
+                                   sig="repeat")
+                            break
                     if not okm:
                         v.fail("batch-entry-differs-from-solo", f"{label}: entry {key} has message {m!r}; solving the "
                                                                 f"game alone gives {('error ' + rf['msg']) if rf.get('msg_is_error_text') else 'a result' if rf.get('ok') else 'no solve'}",
